@@ -23,7 +23,7 @@ static Case gen_case() {
     Case c;
     uint64_t nclients = pick(1, 3);
     // cfg: nclients, main releases before(0)/after(1) joining the clients, main sleep class (0 none), chain mask
-    c.cfg = {nclients, pick(0, 1), pick(0, 4), chance(30) ? pick(0, 255) : 0};
+    c.cfg = {nclients, pick(0, 1), pick(0, 4), chance(30) ? pick(0, 255) : 0, pick(0, 15)};
     c.ops = op_list(30, [=] {
         uint64_t cl = pick(0, nclients - 1);
         switch (weighted({5, 5, 3, 2, 1})) {
@@ -225,6 +225,19 @@ static void run(const Case &c, Ctx &ctx) {
             w.destroyed_by = tid();
         }
     };
+    // creation that fails part-way (the OS cannot provide the requested stack): NULL result, nothing left allocated
+    if (c.c(4) % 16 == 15) {
+        struct aws_thread_options bad = *aws_default_thread_options();
+        bad.stack_size = (size_t)1 << 60;
+        struct aws_thread_scheduler *s2 = aws_thread_scheduler_new(galloc::full(), &bad);
+        if (s2 == nullptr) {
+            PBT_CHECK(galloc::live_blocks() == 0, "aws_thread_scheduler_new failed and left %zu blocks (%zu bytes) allocated", galloc::live_blocks(),
+                      galloc::live_bytes());
+            ctx.tag("creation_failed_cleanly");
+        } else {
+            aws_thread_scheduler_release(s2); // the platform accepted the stack size after all
+        }
+    }
     ds::Config cfg = dsg::to_config(dsg::find_schedule(c), 80000);
     cfg.max_virtual_ns = 2 * 3600ull * 1000000000ull; // legitimate programs finish within ~0.3 s of virtual time
     ds::run(cfg, [&] {
